@@ -106,9 +106,11 @@ SetModel(q) == CHOOSE m \in Models : q = "set:" \o m
 InHist(v) == \A i \in 1..(N + 1) : v[i] <= BHist /\ 0 - v[i] <= BHist
 \* an entry of `held` is <<query, value handed out, the point the object held when it was asked, the model it was last given in>>
 NQ(h) == Cardinality({i \in 1..Len(h) : h[i][1] \notin SetNames})
+HasMove(h) == \E i \in 1..Len(h) : h[i][1] \in SetNames
 Query(q) ==
   LET y == From(chart, c) IN
   /\ steps = 0 /\ InHist(x) /\ NQ(held) < MaxQueries
+  /\ (HasMove(held) => NQ(held) < 2)          \* histories with a move have the form: query, move, query (in every tier)
   /\ QDefined(y, q)
   /\ held' = Append(held, <<q, QValue(y, q), y, chart>>)
   /\ UNCHANGED <<x, chart, c, steps>>
@@ -122,7 +124,7 @@ Query(q) ==
 Rot(v) == [i \in 1..(N + 1) |-> IF i = 1 THEN v[1] ELSE IF i = 2 THEN 0 - v[N + 1] ELSE v[i - 1]]
 Assign(m2) ==
   LET v == Rot(x) IN
-  /\ steps = 0 /\ InHist(x) /\ held # <<>> /\ NQ(held) = Len(held) /\ NQ(held) < MaxQueries
+  /\ steps = 0 /\ InHist(x) /\ Len(held) = 1 /\ NQ(held) = 1 /\ NQ(held) < MaxQueries
   /\ Defined(v, m2)
   /\ x' = v /\ chart' = m2 /\ c' = Coord(v, m2)
   /\ held' = Append(held, <<"set:" \o m2, Coord(v, m2), v, m2>>)
@@ -153,7 +155,7 @@ EmitHist == IF ~InHist(x) \/ MaxQueries = 0 THEN TRUE
             ELSE IF Len(held) = 0
             THEN PrintT("HIST " \o ToJson([k |-> "point", x |-> x, ideal |-> Ideal(x), chart |-> chart, c |-> c, cond |-> Cond(x),
                                              vals |-> [q \in {r \in Queries : QDefined(x, r)} |-> QValue(x, q)]]))
-            ELSE NQ(held) < MaxQueries \/ PrintT("HIST " \o ToJson([k |-> "hist", x |-> held[1][3], chart |-> held[1][4], qs |-> QNames,
+            ELSE (NQ(held) < MaxQueries /\ ~(HasMove(held) /\ NQ(held) = 2)) \/ PrintT("HIST " \o ToJson([k |-> "hist", x |-> held[1][3], chart |-> held[1][4], qs |-> QNames,
                                                                                  at |-> [i \in 1..Len(held) |-> held[i][3]]]))
 
 Emit == last'.a # "convert" \/
